@@ -309,6 +309,8 @@ def run_property(verif, pid, tier, seed):
     # (the replay file says that the unit itself was undecided); no failing input leaves the unit UNDECIDED (exit 2).
     for O in outcomes:
         if not O.undecided or any(o is O for o, _, _ in viol): continue
+        # a surviving mutant or a vacuity warning says something about the machinery, not about the tree: no fallback
+        if O.undecided.startswith("contract too weak or mutant anchor lost") or O.undecided.startswith("vacuity:"): continue
         wmod = load_witness(verif, O.name)
         if wmod is None or not hasattr(wmod, "standing"): continue
         try:
